@@ -19,7 +19,13 @@ enum Stmt {
     Use(String, Vec<String>),
 }
 
-const PARAM_POOL: [&str; 18] = ["p", "pq", "pqr", "q", "v", "va", "val", "n", "nn", "r1", "r", "k", "_t", "t_", "N", "VAL", "P", "Pq"];
+/// names that are prefixes / substrings of each other, of registers, mnemonics and the data label used in bodies, and
+/// names that are the letter-led tail of a number literal used in bodies (`x1` in `0x1`, `b10` in `0b10`): a literal
+/// is one word, no parameter occurs in it
+const PARAM_POOL: [&str; 36] = [
+    "p", "pq", "pqr", "q", "v", "va", "val", "n", "nn", "r1", "r", "k", "_t", "t_", "N", "VAL", "P", "Pq", "x1", "b1", "xa", "xF", "b10", "X1", "B0", "x0", "x", "b", "d", "label", "abel", "dlabe", "ov", "mo", "dd", "or2",
+];
+const LITERALS: [&str; 12] = ["0x1", "0b1", "0xa", "0xF", "0b10", "0X1", "0B0", "0x0", "0x10", "0b11", "0xaF", "0b101"];
 
 fn word_chars(c: char) -> bool {
     c.is_ascii_alphanumeric() || c == '_'
@@ -141,12 +147,15 @@ fn rand_lib(rng: &mut Rng) -> Vec<Mac> {
             } else {
                 // an instruction with word-sized operands; parameters used as operands, decoys around
                 let dst = if !params.is_empty() && rng.chance(1, 2) { params[rng.below(params.len())].clone() } else { ["ax", "bx", "dx", "si"][rng.below(4)].to_string() };
-                let src = if !params.is_empty() && rng.chance(2, 3) { params[rng.below(params.len())].clone() } else { format!("{}", rng.below(500)) };
+                let src = if !params.is_empty() && rng.chance(2, 3) { params[rng.below(params.len())].clone() } else if rng.chance(1, 2) { LITERALS[rng.below(LITERALS.len())].to_string() } else { format!("{}", rng.below(500)) };
                 let mn = ["mov", "add", "sub", "and", "xor", "cmp"][rng.below(6)];
                 // decoy tokens containing parameter names as substrings: registers (ax/va), numbers
                 body.push(Stmt::Ins(format!("{} {},{}", mn, dst, src)));
                 if rng.chance(1, 4) {
                     body.push(Stmt::Ins("mov val2,pqrs".replace("val2", "cx").replace("pqrs", "7")));
+                }
+                if rng.chance(1, 5) {
+                    body.push(Stmt::Ins(format!("{} cx,word dlabel", ["mov", "add", "or"][rng.below(3)])));
                 }
             }
         }
@@ -363,6 +372,10 @@ fn fixed_positive_cases() -> Vec<Case> {
         mk("macro ld(_) -> mov ax,_ add bx,_ <-", "ld(7)", "mov ax,7 add bx,7", "underscore-parameter-used"),
         mk("macro l2(_,v) -> mov ax,_ mov bx,v <-", "l2(7,8)", "mov ax,7 mov bx,8", "underscore-parameter-used"),
         mk("macro in2(p) -> inc p <-\nmacro o2(_) -> in2 (_) <-", "o2(cx)", "inc cx", "underscore-parameter-forwarded"),
+        // a parameter that is the letter-led tail of a number literal of the body: the literal is one word
+        mk("macro plot(x1,y1) -> mov cx,x1 mov dx,y1 mov al,0x1 <-", "plot(7,9)", "mov cx,7 mov dx,9 mov al,0x1", "parameter-is-tail-of-literal"),
+        mk("macro bits(b1,B0) -> mov cx,b1 mov dx,B0 mov al,0b1 mov ah,0B0 <-", "bits(7,9)", "mov cx,7 mov dx,9 mov al,0b1 mov ah,0B0", "parameter-is-tail-of-literal"),
+        mk("macro hx(xF,xa) -> mov cx,xF add cx,0xF sub cx,0xa mov dx,xa <-", "hx(3,4)", "mov cx,3 add cx,0xF sub cx,0xa mov dx,4", "parameter-is-tail-of-literal"),
         // unused parameters before used ones
         mk("macro un(unused,dst,v) -> mov dst,v <-", "un(9,bx,4660)", "mov bx,4660", "unused-leading-parameter"),
         // names differing only in case are different names: a label / a second parameter next to a parameter
@@ -529,4 +542,4 @@ pub fn run(rep: &Report) {
     rep.floor("macro programs", rep.evals(), 600);
 }
 
-pub const RULE: &str = "random acyclic macro libraries (0-6 macros, 0-4 parameters drawn from a pool of names that are prefixes/substrings of each other and of body tokens, bodies of instructions and uses of other macros, arguments of kinds register / decimal / hex / binary number / bracketed memory / data label) used at top level and inside procedures; the harness's own whole-word token-level expander produces the hand-expanded program and both programs must emit identical code and data; a fixed family of direct / indirect / through-argument recursion, unknown names and invalid expansions must be rejected with a diagnostic whose position lies inside the use site; chains of depth 1..64 in process, 128..4096 through the real binary (abort = violation, watchdog = inconclusive). Distinct = (use site kind, emitted length) resp. error kind / chain depth. Use histories (repeated argument lists, macros defined again between uses; the definition current at each use counts); 100..700 parameters. Aftermath: a context that met refused uses of every kind (recursion, unknown macro, invalid expansion, chains of 129..200) and was clear()ed must expand generated libraries (same macro names) like a fresh context.";
+pub const RULE: &str = "random acyclic macro libraries (0-6 macros, 0-4 parameters drawn from a pool of names that are prefixes/substrings of each other and of body tokens - registers, mnemonics, the data label, and the letter-led tails of the hex/binary literals the bodies use (x1 / 0x1, b10 / 0b10) -, bodies of instructions and uses of other macros, arguments of kinds register / decimal / hex / binary number / bracketed memory / data label) used at top level and inside procedures; the harness's own whole-word token-level expander produces the hand-expanded program and both programs must emit identical code and data; a fixed family of direct / indirect / through-argument recursion, unknown names and invalid expansions must be rejected with a diagnostic whose position lies inside the use site; chains of depth 1..64 in process, 128..4096 through the real binary (abort = violation, watchdog = inconclusive). Distinct = (use site kind, emitted length) resp. error kind / chain depth. Use histories (repeated argument lists, macros defined again between uses; the definition current at each use counts); 100..700 parameters. Aftermath: a context that met refused uses of every kind (recursion, unknown macro, invalid expansion, chains of 129..200) and was clear()ed must expand generated libraries (same macro names) like a fresh context.";
